@@ -561,16 +561,21 @@ func (w *ckksWorld) cover(c *engine.Chooser, s ckksSpec) {
 }
 
 // shapeScenario: LogDimensions x level x NTT flag x input type x length, default scale, mixed values.
-// With full=true (thorough tier) the scale and the value family are enumerated as well: the complete product.
-func ckksShapeScenario(cf ckksConf, full bool) engine.Scenario {
+// depth 0: default scale, mixed values. depth 1: the value family is enumerated as well. depth 2: the complete
+// product, one scenario per scale (scaleIdx) so that the work spreads over the workers.
+func ckksShapeScenario(cf ckksConf, depth, scaleIdx int) engine.Scenario {
 	name := "ckks/" + cf.name + "/shape"
+	if depth == 2 {
+		name += fmt.Sprintf("/scale%d", scaleIdx)
+	}
 	return engine.Scenario{Name: name, Bound: -1, Fn: func(c *engine.Chooser) {
 		w := getCkksWorld(cf)
 		s := ckksSpec{scale: pow2(cf.logScale), scaleTag: "default", fam: famMixed}
-		if full {
+		if depth == 2 {
 			scs, tags := w.scaleOptions()
-			si := c.Choose(len(scs), "scale")
-			s.scale, s.scaleTag = scs[si], tags[si]
+			s.scale, s.scaleTag = scs[scaleIdx], tags[scaleIdx]
+		}
+		if depth >= 1 {
 			s.fam = c.Choose(5, "values")
 		}
 		s.logSlots = w.maxL - c.Choose(w.maxL+1, "logSlots") // choice 0 = full packing
@@ -986,13 +991,24 @@ func ckksEmbedScenario(cf ckksConf) engine.Scenario {
 }
 
 // quick tier: the complete CKKS product (LogDimensions x level x NTT x input type x length x scale x value family,
-// every output type, plain and public decoding) up to this ring degree; thorough: every ring degree.
+// every output type, plain and public decoding) up to this ring degree, the product without the scale axis one
+// degree above, the shape axes only beyond; thorough: the complete product at every ring degree.
 const fullProductLogN = 5
 
 func ckksScenarios(tier string) []engine.Scenario {
 	var scs []engine.Scenario
 	for _, cf := range ckksConfigs(tier) {
-		scs = append(scs, ckksShapeScenario(cf, tier == "thorough" || cf.logN <= fullProductLogN), ckksValueScenario(cf), ckksCoeffScenario(cf), ckksProductScenario(cf), ckksFFTScenario(cf), ckksEmbedScenario(cf))
+		switch {
+		case tier == "thorough" || cf.logN <= fullProductLogN:
+			for si := 0; si < 5; si++ {
+				scs = append(scs, ckksShapeScenario(cf, 2, si))
+			}
+		case cf.logN == fullProductLogN+1:
+			scs = append(scs, ckksShapeScenario(cf, 1, 0))
+		default:
+			scs = append(scs, ckksShapeScenario(cf, 0, 0))
+		}
+		scs = append(scs, ckksValueScenario(cf), ckksCoeffScenario(cf), ckksProductScenario(cf), ckksFFTScenario(cf), ckksEmbedScenario(cf))
 	}
 	return scs
 }
